@@ -385,6 +385,78 @@ theorem invalid_du_partial {fs : Bytes → Option Bytes} {main : Bytes} {S : Asm
   have h0 : S.errors.length = 0 := by rw [hq.1]; rfl
   omega
 
+/-- a task loop that starts with a task which records a diagnostic ends with a diagnostic recorded -/
+theorem localLoop_first {env : Asm.Env} {t : Asm.Task} {st0 : Asm.St}
+    (ht : ∀ st' r, Asm.runTask Asm.encoder env st0 t = .ok (st', r) → 1 ≤ st'.errors.length) :
+    ∀ (k : Nat) (res : Asm.Res) (S2 : Asm.St) (r2 : Asm.Res),
+      Asm.localLoop Asm.encoder env (k + 1) [t] st0 res = .ok (S2, r2) → 1 ≤ S2.errors.length := by
+  intro k res S2 r2 h
+  simp only [Asm.localLoop, List.isEmpty_cons, Bool.false_eq_true, if_false] at h
+  cases hr : Asm.localRound Asm.encoder env [t] st0 res with
+  | stop s => rw [hr] at h; cases h
+  | ok p =>
+    obtain ⟨st1, res1⟩ := p
+    rw [hr] at h
+    have h1 : 1 ≤ st1.errors.length := by
+      simp only [Asm.localRound] at hr
+      cases hrt : Asm.runTask Asm.encoder env st0 t with
+      | stop s => rw [hrt] at hr; cases hr
+      | ok q =>
+        obtain ⟨st', rr⟩ := q
+        have := ht st' rr hrt
+        rw [hrt] at hr
+        cases rr with
+        | ok => simp only at hr; cases hr; exact this
+        | err lv =>
+          simp only at hr
+          split at hr <;> (cases hr; exact this)
+    simp only at h
+    cases hlt : st1.localTasks with
+    | none => rw [hlt] at h; cases h
+    | some new =>
+      rw [hlt] at h
+      simp only at h
+      split at h
+      · cases h; exact h1
+      · have := (Asm.localLoop_grew _ _ _ _ _ _ h).1
+        simp only at this
+        omega
+
+/-- C06i.p4  **undefined name in a data statement**: `.du8 nowhere;` (likewise `.du16`, `.du32`) where `nowhere` is defined
+nowhere — reported (`NoSuchVariable`) when the retry runs at the end of the file -/
+theorem invalid_du_undefined_partial {fs : Bytes → Option Bytes} {main : Bytes} {S : Asm.St} {l c : Nat}
+    {tbl : Asm.Table} (hl : S.locals = some tbl) (du : Asm.DU) (dn : Bytes) (hdn : dn = bytesOf du.name) {n : Bytes}
+    (hr : isRegister n = false) (hf : tbl.find n = none)
+    (h : AtLast fs main ⟨l, c, .directive dn (Args.ofList [.ident n])⟩ S) :
+    ReportedAt fs main ⟨l, c, .directive dn (Args.ofList [.ident n])⟩ := by
+  obtain ⟨data, pre, hfs, hp, hpre, hq⟩ := h
+  have hst : Asm.statement fs Asm.encoder (incOf fs) (envOf main) S ⟨l, c, .directive dn (Args.ofList [.ident n])⟩ =
+      Asm.duDirective du (envOf main) S l c [.ident n] := by
+    subst hdn
+    simp only [Asm.statement, Show.toList_ofList]
+    cases du
+    · exact C04.directive_du8 ..
+    · exact C04.directive_du16 ..
+    · exact C04.directive_du32 ..
+  refine run_last_diag fs main data hfs pre _ hp S hpre (by rw [hst]; exact Asm.duDirective_nf _ _ _ _ _ _) ?_
+  intro S1 r1 hX
+  rw [hst] at hX
+  refine ⟨pat_of_eff (pat_quiet hq _ _ _) (Asm.duDirective_eff (env := envOf main) _ _ hX) (Asm.duDirective_quiet _ _ hX), ?_⟩
+  have h0 : S.errors.length = 0 := by rw [hq.1]; rfl
+  rcases du_undef_stmt du (envOf main) S tbl (by simp) hl hq.2.2 l c n hr hf S1 r1 hX with hE | ⟨rfl, hl1, _, d, hlt1, hda, _⟩
+  · left; omega
+  · right
+    refine ⟨rfl, ?_⟩
+    intro tasks S2 r2 htk hloop
+    rw [hlt1] at htk
+    cases htk
+    have hrounds : Asm.rounds = 7 + 1 := rfl
+    rw [hrounds] at hloop
+    refine localLoop_first ?_ 7 .ok S2 r2 hloop
+    intro st' r hrt
+    have := du_undef_task d (envOf main) { S1 with localTasks := some [] } tbl (by simp) hl1 n hda hr hf st' r hrt
+    omega
+
 /-! ## non-vacuity -/
 
 /-- the file `.addr 0;⏎FOO R1;`: exactly one diagnostic, `NotFound "FOO"`, at the second statement -/
